@@ -231,6 +231,14 @@ def c12_configs():
                                     random_state=0), "clf", order_free=False,
           reason="SGD visits the rows in a seeded order: a permutation of the labeled rows legitimately "
                  "changes the model, only add / remove / reweight relations are generated"),
+        # estimators that keep state across their own fit calls: the wrapper must start every fit from a fresh copy
+        c("SklearnClassifier(LogisticRegression(warm_start=True,max_iter=3))",
+          lambda: SklearnClassifier(LogisticRegression(warm_start=True, max_iter=3), classes=[0, 1], random_state=0),
+          "clf"),
+        c("SklearnClassifier(DecisionTreeClassifier(random_state=RandomState,max_features=1))",
+          lambda: SklearnClassifier(DecisionTreeClassifier(random_state=np.random.RandomState(3), max_features=1,
+                                                           splitter="random"), classes=[0, 1], random_state=0),
+          "clf"),
         c("SklearnRegressor(LinearRegression)", lambda: SklearnRegressor(LinearRegression()), "reg"),
         c("SklearnRegressor(DecisionTreeRegressor)",
           lambda: SklearnRegressor(DecisionTreeRegressor(random_state=0)), "reg"),
@@ -335,11 +343,14 @@ def _pair_job(arg):
             for r in order_r[:-1]:
                 y_stage[r] = y[r]
                 try:
-                    train(clone(proto), "Fit", X, sent(y_stage), w, use_w)
+                    # prelude 2: the stages are fitted on the very object that is observed afterwards (the usual
+                    # labeling loop: one estimator object refitted after every acquisition)
+                    train(obj if prelude == 2 else clone(proto), "Fit", X, sent(y_stage), w, use_w)
                 except Exception:
                     pass
                 stages.append(int(r))
             calls[-1]["labels_revealed_before_in_row_order"] = stages
+            calls[-1]["stages_fitted_on"] = "the same estimator object" if prelude == 2 else "throw-away clones"
         try:
             train(obj, "Fit", X, sent(y), w, use_w)
             n_eval += 1
@@ -439,7 +450,7 @@ def main(tier="quick", seed=0):
                 d, e = lst[int(j)]
                 ones_none = bool(_all_ones(d, e) and rng.rand() < 0.5)
                 jobs.append((ci, d, e, int(rng.randint(0, 4) + 10 * seed), bool(rng.rand() < 0.5), ones_none,
-                             bool(rng.rand() < 0.4)))
+                             int(rng.choice([0, 0, 0, 1, 2]))))
     jobs = [jobs[int(j)] for j in rng.permutation(len(jobs))]   # spread slow estimators over the workers
     out = pmap(_pair_job, jobs)
     traces = []
